@@ -24,7 +24,7 @@ RULE = ("scenario = URL assembled from scheme x host form (name, upper-case name
         "closed.  Enumerated completely: all 340 outcome patterns of length 1..4; URL grid scheme x host form x port x "
         "path x query; all malformed variants.  non-trivial = more than one address, a failing address, a non-default "
         "URL part or a malformed URL; distinct = (scheme, host form, port, path class, query class, outcome pattern, "
-        "sockopt?, timeout?)")
+        "sockopt?, timeout?); a tenth of the scenarios on an object that was connected and closed before (cleanly / close frame's write failing / no reply)")
 ASSUMPTIONS = ["after an 'other error' (timeout, EACCES) both aborting and continuing are accepted",
                "wss scenarios disable certificate verification (C11 covers verification)"]
 
@@ -65,6 +65,7 @@ def plan(tier, seed):
     items.append({"kind": "urlgrid", "scheme": "ws", "exhaustive": "URL grid scheme x host form x port x path x query"})
     items.append({"kind": "urlgrid", "scheme": "wss", "exhaustive": "URL grid scheme x host form x port x path x query"})
     items.append({"kind": "malformed", "exhaustive": "all malformed URL variants"})
+    items.append({"kind": "reused", "exhaustive": "object connected and closed before {cleanly, close frame's write fails, no reply} x timeout x address pattern x sockopt"})
     n = 6000 if tier == "quick" else 480000
     per = 250 if tier == "quick" else 2500
     for s in range(0, n, per):
@@ -89,6 +90,13 @@ def expand(item, seed):
                         yield {"scheme": item["scheme"], "host": host, "port": port, "path": path, "query": q,
                                "addrs": [{"fam": 6 if host == "ipv6" else 4, "outcome": "accept"}], "sockopt": [],
                                "timeout": 3 * S, "seed": 1}
+    elif k == "reused":
+        for pc in ("clean", "write_fails", "reply_missing"):
+            for T in (None, 5 * S, S // 2):
+                for pat in (("accept",), ("refused", "accept"), ("unreachable", "refused", "accept"), ("refused", "refused")):
+                    for so in ([], [[1, 15, 1]]):
+                        yield {"scheme": "ws", "host": "name", "port": None, "path": "/", "query": None,
+                               "addrs": [{"fam": 4, "outcome": o} for o in pat], "sockopt": so, "timeout": T, "seed": 1, "prior_close": pc}
     elif k == "malformed":
         for m in MALFORMED:
             yield {"malformed": m, "addrs": [{"fam": 4, "outcome": "accept"}], "sockopt": [], "timeout": 3 * S, "seed": 1,
@@ -117,6 +125,8 @@ def gen(rng):
     sc["timeout"] = rng.choice((None, 1 * S, 3 * S, S // 2))
     if rng.random() < 0.2:
         sc["stdlib_default_timeout"] = rng.choice((S // 4, 7 * S))  # the application called socket.setdefaulttimeout(x)
+    if rng.random() < 0.12:
+        sc["prior_close"] = rng.choice(("clean", "write_fails", "reply_missing"))
     return sc
 
 
@@ -183,6 +193,12 @@ def run(sc, choices=None):
         table.append((_rs.AF_INET if a["fam"] == 4 else _rs.AF_INET6, ad))
         w.net.listen(ad, eff_port, fac, outcome=a["outcome"])
     w.net.add_host(target_host, table)
+    prior_close = sc.get("prior_close")
+    if prior_close is not None:
+        if prior_close not in ("clean", "write_fails", "reply_missing") or malformed is not None:
+            raise InvalidScenario("prior_close")
+        w.net.add_host("prior.sim.test", [(_rs.AF_INET, "10.2.9.9")])
+        w.net.listen("10.2.9.9", 80, lambda conn: WSPeer(w, {"on_close": {"mode": "never"}} if prior_close == "reply_missing" else {}))
     outcome = None
     with w:
         ws = w.ws
@@ -196,8 +212,23 @@ def run(sc, choices=None):
             import ssl
             kw["sslopt"] = {"cert_reqs": ssl.CERT_NONE, "check_hostname": False}
         first = None
+        base = (0, 0)
         try:
-            if sc.get("on_connected_object"):
+            if prior_close:
+                # the object has been used before: connected with the same configuration, then closed - cleanly, with the close
+                # frame's write failing, or without an answer from the server.  What close() did to the object must not
+                # reach the sockets of the next connection
+                c = ws.WebSocket(**kw)
+                c.settimeout(None if T is None else int(T) / S)
+                c.connect("ws://prior.sim.test/")
+                if prior_close == "write_fails":
+                    w.net.sockets[-1].send_fail = {"call": 0, "errno": "EPIPE"}
+                c.close(timeout=1)
+                base = (len(w.net.resolver_calls), len(w.net.sockets))
+                c.connect(url)
+                outcome = ("ok",)
+                c.close(timeout=1)
+            elif sc.get("on_connected_object"):
                 # the call is made on an object that is connected: refusing the URL must leave that connection alone
                 first = ws.create_connection("ws://multi.sim.test/", timeout=3)
                 base = (len(w.net.resolver_calls), len(w.net.sockets))
@@ -213,6 +244,12 @@ def run(sc, choices=None):
             outcome = ("exc", exc_name(e), isinstance(e, OSError), isinstance(e, ws.WebSocketException), isinstance(e, ValueError))
     res.absorb(w, exclude_kinds=("send", "recv", "deliver") if tls else ())
     socks = w.net.sockets
+    if prior_close:
+        if base == (0, 0):
+            raise HarnessError(f"the earlier connection of the object was not established: {outcome}")
+        socks = socks[base[1]:]
+        del w.net.resolver_calls[:base[0]]
+        res.probes["object_used_and_closed_before"] = 1
     ctx = "malformed" if malformed is not None else ("multi_address" if len(addrs) > 1 else "single_address")
     if outcome[0] == "abort":
         res.violate("connect_hangs", ctx, f"{url}: {outcome[1]}")
